@@ -242,15 +242,24 @@ func checkC05(p *Prog, r *Result, tier string) {
 		if planned == nil {
 			continue
 		}
-		fn.inspectBody(func(n ast.Node) bool {
-			cl, ok := n.(*ast.CompositeLit)
-			if !ok {
-				return true
+		for _, site := range p.litsVia(fn, fn.Body, func(owner *FuncNode, cl *ast.CompositeLit) bool {
+			t := owner.typeOf(cl)
+			if t == nil || len(cl.Elts) == 0 {
+				return false
 			}
-			if t := fn.typeOf(cl); t == nil || len(cl.Elts) == 0 {
-				return true
-			} else if nt, ok := t.(*types.Named); !ok || nt.Obj().Name() != "WorkloadResource" {
-				return true
+			nt, ok := t.(*types.Named)
+			return ok && nt.Obj().Name() == "WorkloadResource"
+		}) {
+			site := site
+			cl := site.lit
+			// an expression of the literal's owner, as written in fn (a helper's parameter stands for its argument)
+			inFn := func(e ast.Expr) ast.Expr {
+				if site.owner != fn {
+					if a, ok := site.args[site.owner.objOf(e)]; ok {
+						return a
+					}
+				}
+				return e
 			}
 			key := fn.Name + " / the CPU amounts recorded are those of the request the pieces were planned for"
 			why := ""
@@ -266,7 +275,7 @@ func checkC05(p *Prog, r *Result, tier string) {
 				}
 				seen++
 				sel, ok := unparen(kv.Value).(*ast.SelectorExpr)
-				if !ok || sel.Sel.Name != k || fn.objOf(sel.X) != planned {
+				if !ok || sel.Sel.Name != k || site.objIn(fn, sel.X) != planned {
 					why = k + " of the recorded resource is `" + exprStr(kv.Value) + "`, not the " + k + " of `" + planned.Name() + "`, the (validated) request that was handed to the planner: the amount on record and the pieces given can differ (validation raises a bound workload's request to its limit)"
 				}
 			}
@@ -314,7 +323,7 @@ func checkC05(p *Prog, r *Result, tier string) {
 			}
 			fromPlan := func(e ast.Expr) bool {
 				sel, ok := unparen(e).(*ast.SelectorExpr)
-				return ok && sel.Sel.Name == "CPUMap" && isPlanElem(sel.X)
+				return ok && sel.Sel.Name == "CPUMap" && isPlanElem(inFn(sel.X))
 			}
 			why4 := ""
 			for _, el := range cl.Elts {
@@ -325,7 +334,7 @@ func checkC05(p *Prog, r *Result, tier string) {
 				if fromPlan(kv.Value) {
 					continue
 				}
-				id, ok := unparen(kv.Value).(*ast.Ident)
+				id, ok := unparen(inFn(kv.Value)).(*ast.Ident)
 				if !ok {
 					why4 = "the recorded CPUMap is `" + exprStr(kv.Value) + "`, not the core map of a plan returned by the planner"
 					continue
@@ -373,8 +382,7 @@ func checkC05(p *Prog, r *Result, tier string) {
 				})
 			}
 			r.check2(why4, "SRC3", fn.Name+" / the cores recorded come from a plan computed for the recorded request", p.pos(cl), "CPUMap: <plan of GetCPUPlans(…, request)>.CPUMap on every path")
-			return true
-		})
+		}
 	}
 	checkN1(p, r, []string{"resource/plugins/cpumem"}, map[string]string{"resource/plugins/cpumem/schedule.(*host).getCPUPlans": "CPU request -> pieces"})
 
@@ -461,20 +469,19 @@ func checkC05(p *Prog, r *Result, tier string) {
 		}
 		return nil, false
 	}
-	isSelOf := func(e ast.Expr, base types.Object, name string) bool {
-		sel, ok := unparen(e).(*ast.SelectorExpr)
-		return ok && sel.Sel.Name == name && A.objOf(sel.X) == base
-	}
 	nLit := 0
-	inspectNoLit(loop.Body, func(n ast.Node) bool {
-		lit, ok := n.(*ast.CompositeLit)
-		if !ok {
-			return true
+	// the literals of the plan loop, or of a constructor helper called there (its parameters stand for the arguments)
+	for _, site := range p.litsVia(A, loop.Body, func(owner *FuncNode, cl *ast.CompositeLit) bool {
+		t := owner.typeOf(cl)
+		return t != nil && (strings.HasSuffix(t.String(), "cpumem/types.WorkloadResource") || strings.HasSuffix(t.String(), "cpumem/types.EngineParams"))
+	}) {
+		site := site
+		lit := site.lit
+		isSelOf := func(e ast.Expr, base types.Object, name string) bool {
+			sel, ok := unparen(e).(*ast.SelectorExpr)
+			return ok && sel.Sel.Name == name && site.objIn(A, sel.X) == base
 		}
-		tn := ""
-		if t := A.typeOf(lit); t != nil {
-			tn = t.String()
-		}
+		tn := site.owner.typeOf(lit).String()
 		switch {
 		case strings.HasSuffix(tn, "cpumem/types.WorkloadResource"):
 			nLit++
@@ -489,8 +496,7 @@ func checkC05(p *Prog, r *Result, tier string) {
 			r.check(ok && isSelOf(v, planVar, "CPUMap"), "SRC2", A.Name+" / engine CPUMap comes from this iteration's plan", p.pos(lit),
 				"CPUMap: plan.CPUMap of the loop variable", "the engine is given `"+exprStr(v)+"`, not the plan that is recorded")
 		}
-		return true
-	})
+	}
 	if nLit == 0 {
 		r.undecided("SRC2", A.Name, p.pos(loop), "no WorkloadResource literal in the plan loop")
 	}
